@@ -21,8 +21,8 @@ CLAUSES = {
     "C01": ["stat:*", "valid", "predictable:*"],   # validity needs the bet to be predictable
     "C05": ["predictable:*", "prefix:*"],
     "C11": ["exc:*", "len", "unit:*", "unitp:*", "overall:*"],
-    "C12": ["stat:*", "exc:*", "conv:*", "equiv:*", "len"],
-    "C13": ["range:*", "exc:*"],
+    "C12": ["stat:*", "exc:*", "conv:*", "equiv:*", "len", "rule:*"],
+    "C13": ["range:*", "exc:*", "rule:*"],
 }
 ESTIMATOR_FUNCS = ("shrink_trunc", "agrapa", "fixed_alternative_mean", "optimal_comparison", "fixed_bet",
                    "welford_mean_var")
